@@ -539,6 +539,149 @@ var requiredNonNilFields = []string{
 	"Pipeline.Cmd", "AndOrList.Pipeline", "AndOr.Pipeline", "Pipe.Cmd", "Cmd.Expr", "ForClause.Name", "FuncDef.Body", "Assign.Name",
 }
 
+// gr3Consistent checks that production k of the grammar is case k of the
+// checked-in parser.
+func gr3Consistent(gi *GrammarInfo) string {
+	r2 := gi.Checked.Tables["yyR2"]
+	if len(r2) != len(gi.G.Prods)+1 {
+		return fmt.Sprintf("grammar has %d productions, yyR2 has %d entries", len(gi.G.Prods), len(r2))
+	}
+	for _, p := range gi.G.Prods {
+		if int(r2[p.N]) != len(p.RHS) {
+			return fmt.Sprintf("`%s` has %d symbols, yyR2 says %d", p, len(p.RHS), r2[p.N])
+		}
+	}
+	return ""
+}
+
+// gr3Values runs GR3's fixed point (symbol values only) once per check, for
+// rules that ask what a reduce action hands to a helper.
+func (c *Ctx) gr3Values() *gr3 {
+	if v, ok := c.cache["gr3Values"]; ok {
+		return v.(*gr3)
+	}
+	var out *gr3
+	defer func() { c.cache["gr3Values"] = out }()
+	gi := c.grammar("parser")
+	if gi.Err != nil || c.P.Pkgs["parser"] == nil || gr3Consistent(gi) != "" {
+		return nil
+	}
+	g := &gr3{c: c, gi: gi, info: c.P.Pkgs["parser"].TypesInfo, vals: map[string]aval{}}
+	for round := 0; round < 12; round++ {
+		g.field, g.nfld = map[string]aval{}, map[string]int{}
+		next := map[string]aval{}
+		for _, p := range gi.G.Prods {
+			var v aval
+			if cc, ok := gi.Checked.Cases[p.N]; ok {
+				v = g.runAction(p.N, cc, nil)
+			} else if len(p.RHS) > 0 {
+				v = g.symVal(p.RHS[0])
+			}
+			if old, ok := next[p.LHS]; ok {
+				next[p.LHS] = joinAval(old, v)
+			} else {
+				next[p.LHS] = v
+			}
+		}
+		same := len(next) == len(g.vals)
+		for k, v := range next {
+			if g.vals[k] != v {
+				same = false
+			}
+		}
+		g.vals = next
+		if same {
+			out = g
+			return out
+		}
+	}
+	return nil
+}
+
+// reduceArgNonEmpty reports whether an argument a reduce action passes to a
+// helper is a non-empty list according to GR3's fixed point: the call must sit
+// in `case k:` of the generated parser and the argument must evaluate, in the
+// environment of production k, to a value built non-empty by every action.
+func (c *Ctx) reduceArgNonEmpty(call *ast.CallExpr, arg ast.Expr) (bool, string) {
+	g := c.gr3Values()
+	if g == nil {
+		return false, ""
+	}
+	for k, cc := range g.gi.Checked.Cases {
+		if cc.Pos() <= call.Pos() && call.End() <= cc.End() {
+			if k < 1 || k > len(g.gi.G.Prods) {
+				return false, ""
+			}
+			env := &actEnv{k: k, prod: g.gi.G.Prods[k-1], locals: map[types.Object]aval{}}
+			// locals defined once, before the call, from $n values; $$ only while
+			// the action has not assigned it (it then still is $1)
+			nassign := map[types.Object]int{}
+			valAssigned := false
+			var defs []*ast.AssignStmt
+			ast.Inspect(cc, func(n ast.Node) bool {
+				as, ok := n.(*ast.AssignStmt)
+				if !ok {
+					return true
+				}
+				for _, l := range as.Lhs {
+					if id, ok := l.(*ast.Ident); ok {
+						if obj := g.info.ObjectOf(id); obj != nil {
+							nassign[obj]++
+						}
+					}
+					if _, _, isVal, ok := dollar(l); ok && isVal && as.Pos() < call.Pos() {
+						valAssigned = true
+					}
+				}
+				if as.Tok == token.DEFINE && len(as.Lhs) == len(as.Rhs) && as.End() <= call.Pos() {
+					defs = append(defs, as)
+				}
+				return true
+			})
+			usesVal := false
+			ast.Inspect(arg, func(n ast.Node) bool {
+				if e, ok := n.(ast.Expr); ok {
+					if _, _, isVal, ok := dollar(e); ok && isVal {
+						usesVal = true
+					}
+				}
+				return true
+			})
+			sort.Slice(defs, func(i, j int) bool { return defs[i].Pos() < defs[j].Pos() })
+			for _, as := range defs {
+				for i, l := range as.Lhs {
+					id, ok := l.(*ast.Ident)
+					if !ok {
+						continue
+					}
+					obj := g.info.Defs[id]
+					if obj == nil || nassign[obj] != 1 {
+						continue
+					}
+					ast.Inspect(as.Rhs[i], func(n ast.Node) bool {
+						if e, ok := n.(ast.Expr); ok {
+							if _, _, isVal, ok := dollar(e); ok && isVal {
+								usesVal = true
+							}
+						}
+						return true
+					})
+					env.locals[obj] = g.eval(as.Rhs[i], env)
+				}
+			}
+			if usesVal && valAssigned {
+				return false, ""
+			}
+			v := g.eval(arg, env)
+			if v.nonEmpty && !v.bottom {
+				return true, fmt.Sprintf("reduce action %d (%s): GR3 builds %s non-empty in every production", k, g.gi.G.Prods[k-1], exprStr(arg))
+			}
+			return false, ""
+		}
+	}
+	return false, ""
+}
+
 func ruleGR3() Rule {
 	return Rule{ID: "GR3", Kind: "must", Floor: 100,
 		Doc: "least fixed point over the reduce actions: every nonterminal always carries one dynamic type (so the type assertions on yyDollar cannot fail), list-valued nonterminals that consumers index are non-empty by construction, and the AST fields the printer and ast package index are built from such values",
@@ -550,16 +693,9 @@ func ruleGR3() Rule {
 			}
 			g := &gr3{c: c, gi: gi, info: c.P.Pkgs["parser"].TypesInfo, vals: map[string]aval{}}
 			// production k <-> case k consistency
-			r2 := gi.Checked.Tables["yyR2"]
-			if len(r2) != len(gi.G.Prods)+1 {
-				rr.Unkp(c.P, "parser|production-count", gi.AstFile.Pos(), fmt.Sprintf("grammar has %d productions, yyR2 has %d entries", len(gi.G.Prods), len(r2)))
+			if msg := gr3Consistent(gi); msg != "" {
+				rr.Unkp(c.P, "parser|production-count", gi.AstFile.Pos(), msg)
 				return
-			}
-			for _, p := range gi.G.Prods {
-				if int(r2[p.N]) != len(p.RHS) {
-					rr.Unkp(c.P, fmt.Sprintf("parser|production %d", p.N), gi.AstFile.Pos(), fmt.Sprintf("`%s` has %d symbols, yyR2 says %d", p, len(p.RHS), r2[p.N]))
-					return
-				}
 			}
 			for round := 0; round < 12; round++ {
 				g.field, g.nfld = map[string]aval{}, map[string]int{}
